@@ -637,6 +637,18 @@ func (r *run) newAsk(k int, asker, server *Node, cls string, gated bool, delay i
 	as := &askState{k: k, asker: asker, server: server, want: want, cls: cls,
 		done: make(chan struct{}), entered: make(chan struct{}), release: make(chan struct{}), hend: make(chan struct{})}
 	reqLen := r.nextReqLen()
+	// transports that carry an ask as a framed byte stream (quicswarm, sshswarm): requests and answers far longer
+	// than one packet / one read, so that a frame arrives in pieces (a reader that takes the first piece for the
+	// whole frame hands on, or returns, a truncated payload)
+	if r.beh.Stack == "quicswarm" || r.beh.Stack == "sshswarm" {
+		if k%3 == 0 {
+			reqLen = bigBody - k%7
+		}
+		if k%4 == 1 || k%6 == 0 {
+			want = bigBody + k%5
+			as.want = want
+		}
+	}
 	as.req = makeReq(reqInfo{beh: r.beh.ID, k: k, asker: asker.Name, want: want, cls: cls, gated: gated, delay: delay}, reqLen, r.rng)
 	if timeout > 0 {
 		as.ctx, as.cancel = context.WithTimeout(r.bg, timeout)
@@ -650,6 +662,9 @@ func (r *run) newAsk(k int, asker, server *Node, cls string, gated bool, delay i
 }
 
 var wants = []int{48, 100, 150}
+
+// bigBody: well above one QUIC packet, one TCP segment and QUIC's initial congestion window, below sshswarm's MTU
+const bigBody = 100000
 
 // nextReqLen: requests of equal length, or shorter after longer, fit into whatever buffer held the
 // previous request at the destination (mbapp's single-datagram path hands on a slice of the receive
